@@ -52,7 +52,7 @@ def one(kind, name, props):
             det = os.environ.get("PAR_SEEDED_DETAIL")
             if det:
                 with open(det, "a") as f:
-                    f.write(json.dumps({"name": name, "prop": prop, "rc": p.returncode, "violation": bool(viol), "obligations": fo[:4], "n_obligations": len(fo),
+                    f.write(json.dumps({"name": name, "prop": prop, "rc": p.returncode, "violation": bool(viol), "obligations": fo[:14], "n_obligations": len(fo),
                                         "replayed": rp[:1], "undecided": [u[:200] for u in und]}) + "\n")
             res.append((prop, p.returncode, (viol[0] if viol else last)[:200] + f" [{time.time() - t0:.0f}s]" + (" " + " | ".join(u[:120] for u in und) if und and not viol else "")))
     shutil.rmtree(r, ignore_errors=True)
